@@ -5,7 +5,12 @@
 //! vh — model-checking harness for rust-osdev/x86_64 (see /verif/DESIGN.md).
 mod arch;
 mod b64;
+mod mp;
+mod mpsearch;
 mod out;
+mod r1;
+mod sig;
+mod simphys;
 mod simcpu;
 mod c03;
 mod c04;
@@ -34,6 +39,8 @@ impl Args {
         self.tier == "thorough"
     }
 }
+
+pub fn on_fatal_signal() {}
 
 fn main() {
     let mut a = Args { prop: String::new(), tier: "quick".into(), shard: 0, nshards: 1, replay: None, extra: vec![] };
@@ -65,6 +72,7 @@ fn main() {
         "C14" => c14::run(&a),
         "C15" => c15::run(&a),
         "C19" => c19::run(&a),
+        "MAPPER" => mpsearch::run(&a),
         "profile" => println!("{} overflow_checks={}", out::profile(), out::overflow_checks_on()),
         p => {
             eprintln!("unknown property {p}");
